@@ -1,9 +1,10 @@
 // Command c11 runs random sequences of walletdb transactions (managed
-// Update/View with closures that return nil, return an error or panic; manual
-// Begin/Commit/Rollback; a reader overlapping a writer; close+reopen) against
-// the REAL walletdb + bdb on a bbolt file and reports, for every operation,
-// what the implementation returned, plus a dump of the whole tree after every
-// step.  The property oracle is evaluated on these observations only (dumps
+// Update/View/Batch with closures that return nil, return an error or panic;
+// manual Begin/Commit/Rollback; a reader overlapping a writer; several
+// goroutines in Update or Batch at once; close+reopen) against the REAL
+// walletdb + bdb on a bbolt file and reports, for every operation, what the
+// implementation returned, plus a dump of the whole tree and the number of
+// read transactions left open after every step.  The property oracle is evaluated on these observations only (dumps
 // before/after, dumps taken inside the transaction, a per-transaction table of
 // successful writes); it does not use the Coq model.
 package main
@@ -18,10 +19,12 @@ import (
 	"os"
 	"path/filepath"
 	"sort"
+	"sync"
+	"sync/atomic"
 	"time"
 
 	"github.com/btcsuite/btcwallet/walletdb"
-	_ "github.com/btcsuite/btcwallet/walletdb/bdb"
+	"github.com/btcsuite/btcwallet/walletdb/bdb"
 
 	"verifharness/internal/core"
 	"verifharness/internal/gen"
@@ -96,11 +99,24 @@ type op struct {
 }
 
 type step struct {
-	T      string `json:"t"`              // tx | reopen | overlap
-	Kind   string `json:"kind,omitempty"` // update-ok update-err update-panic view-ok view-err view-panic manual-commit manual-rollback manual-read
+	T      string `json:"t"`              // tx | reopen | overlap | conc
+	Kind   string `json:"kind,omitempty"` // update-ok update-err update-panic view-ok view-err view-panic batch-ok batch-err batch-panic manual-commit manual-rollback manual-read
 	Ops    []op   `json:"ops,omitempty"`
 	Before []op   `json:"before,omitempty"`
 	After  []op   `json:"after,omitempty"`
+	// conc: several goroutines call walletdb.Update (mode "update") or
+	// walletdb.Batch (mode "batch") at once, one call each
+	Mode  string  `json:"mode,omitempty"`
+	Calls []ccall `json:"calls,omitempty"`
+}
+
+// ccall is one caller of a concurrent step.  Its closure runs Ops and then
+// ends as End says (ok | err | panic).  The first two operations are always
+// "create the top-level bucket ord if missing" and "NextSequence on it": the
+// number it gets tells where the call stands in the serial order.
+type ccall struct {
+	End string `json:"end"`
+	Ops []op   `json:"ops"`
 }
 
 type c11Input struct {
@@ -137,10 +153,24 @@ type result struct {
 
 type stepObs struct {
 	Res    []result `json:"res,omitempty"`
-	Ret    string   `json:"ret,omitempty"` // nil | err | panic | other:<text>
+	Ret    string   `json:"ret,omitempty"` // nil | err | panic | other:<text> (reopen: "" or "blocked")
+	Runs   int      `json:"runs,omitempty"` // batch: how many times the closure ran
 	Before []result `json:"before,omitempty"`
 	After  []result `json:"after,omitempty"`
 	Post   *tree    `json:"post"`
+	Open   int      `json:"open"` // read transactions open after the step (bbolt OpenTxN)
+	// conc
+	Calls []callObs `json:"calls,omitempty"`
+	Order []int     `json:"order,omitempty"` // the calls in the serial order observed
+}
+
+type callObs struct {
+	Res  []result `json:"res"` // of the last run of the closure
+	Ret  string   `json:"ret"`
+	Runs int      `json:"runs"`
+	Seq  uint64   `json:"seq"` // what NextSequence on ord returned in the last run
+
+	pre, end *tree // dumps taken by the closure's last run before / after its operations
 }
 
 type c11Obs struct {
@@ -337,6 +367,7 @@ type txCtx struct {
 	writes   map[string]*hx  // pathKey+"#"+hex(key) -> last successful write (nil entry = deleted)
 	bad      map[string]bool // oracle kinds raised
 	nsChecks int
+	lastErr  error // what the most recent error-returning call returned (nil or not)
 }
 
 func (c *txCtx) raise(kind string) { c.bad[kind] = true }
@@ -497,6 +528,7 @@ func execOp1(c *txCtx, tx walletdb.ReadWriteTx, o op) result {
 		if !c.writable && err == nil {
 			c.raise("readonly_tx_modified")
 		}
+		c.lastErr = err
 		return result{T: "err", E: errClass(err)}
 	}
 	if len(o.P) == 0 {
@@ -616,6 +648,8 @@ type runner struct {
 	kinds    map[string]bool
 	stuck    bool
 	released bool // the reader of the last overlap step had to be released early
+	leaked   bool // a managed call left a read transaction open
+	blocked  bool // Close did not return
 }
 
 func (rn *runner) open(create bool) error {
@@ -643,9 +677,83 @@ func (rn *runner) merge(c *txCtx) {
 	}
 }
 
+// managedCall runs one walletdb.Update / View / Batch call whose closure is
+// body and classifies how the call ended for the caller: "nil", "err" (the
+// very error value the closure returned came back), "panic" (the closure's own
+// panic value came out), "other:...".
+func managedCall(call func(func(tx walletdb.ReadWriteTx) error) error, body func(tx walletdb.ReadWriteTx) error) (ret string) {
+	defer func() {
+		if p := recover(); p != nil {
+			if p == interface{}(panicValue) {
+				ret = "panic"
+			} else {
+				ret = fmt.Sprintf("other:panic %v", p)
+			}
+		}
+	}()
+	var returned error
+	e := call(func(tx walletdb.ReadWriteTx) error {
+		returned = body(tx)
+		return returned
+	})
+	switch {
+	case e == nil:
+		return "nil"
+	case e == returned:
+		return "err"
+	}
+	return "other:" + e.Error()
+}
+
+// failWith is the error a failing closure returns: the error of its last
+// failing call if the last call that reports an error failed (the error value
+// the adapter handed out, as real callers pass it on), else a private one.
+func failWith(c *txCtx) error {
+	if c != nil && c.lastErr != nil {
+		return c.lastErr
+	}
+	return errClosure
+}
+
+func callerOf(db walletdb.DB, what string) func(func(tx walletdb.ReadWriteTx) error) error {
+	switch what {
+	case "update":
+		return func(f func(tx walletdb.ReadWriteTx) error) error { return walletdb.Update(db, f) }
+	case "batch":
+		return func(f func(tx walletdb.ReadWriteTx) error) error { return walletdb.Batch(db, f) }
+	case "view":
+		return func(f func(tx walletdb.ReadWriteTx) error) error {
+			return walletdb.View(db, func(tx walletdb.ReadTx) error { return f(tx.(walletdb.ReadWriteTx)) })
+		}
+	}
+	panic("c11: unknown managed call " + what)
+}
+
+// endOf ends a closure the way the kind says.
+func endOf(kind string, c *txCtx) error {
+	switch {
+	case len(kind) >= 4 && kind[len(kind)-4:] == "-err", kind == "err":
+		return failWith(c)
+	case len(kind) >= 6 && kind[len(kind)-6:] == "-panic", kind == "panic":
+		panic(panicValue)
+	}
+	return nil
+}
+
+func managedOf(kind string) string {
+	for _, m := range []string{"update", "view", "batch"} {
+		if len(kind) > len(m) && kind[:len(m)+1] == m+"-" {
+			return m
+		}
+	}
+	return ""
+}
+
 // runTx runs one transaction of the given kind; returns results, how the call
-// ended, and the dump taken inside the transaction after the last operation.
-func (rn *runner) runTx(kind string, ops []op) (res []result, ret string, end *tree, err error) {
+// ended, the dump taken inside the transaction after the last operation, and
+// how many times the closure ran (bbolt's Batch may run it more than once; the
+// results and the dump are those of the last run).
+func (rn *runner) runTx(kind string, ops []op) (res []result, ret string, end *tree, runs int, err error) {
 	classify := func(e error) string {
 		switch {
 		case e == nil:
@@ -655,63 +763,29 @@ func (rn *runner) runTx(kind string, ops []op) (res []result, ret string, end *t
 		}
 		return "other:" + e.Error()
 	}
-	switch kind {
-	case "update-ok", "update-err", "update-panic":
-		c := newCtx(true, rn.r)
-		func() {
-			defer func() {
-				if p := recover(); p != nil {
-					if p == interface{}(panicValue) {
-						ret = "panic"
-					} else {
-						ret = fmt.Sprintf("other:panic %v", p)
-					}
-				}
-			}()
-			e := walletdb.Update(rn.db, func(tx walletdb.ReadWriteTx) error {
-				res = execOps(c, tx, ops)
+	if m := managedOf(kind); m != "" {
+		var last *txCtx
+		ret = managedCall(callerOf(rn.db, m), func(tx walletdb.ReadWriteTx) error {
+			runs++
+			c := newCtx(m != "view", rn.r)
+			last = c
+			res = execOps(c, tx, ops)
+			if m != "view" {
 				end = dumpTx(tx)
-				switch kind {
-				case "update-err":
-					return errClosure
-				case "update-panic":
-					panic(panicValue)
-				}
-				return nil
-			})
-			ret = classify(e)
-		}()
-		rn.merge(c)
-	case "view-ok", "view-err", "view-panic":
-		c := newCtx(false, rn.r)
-		func() {
-			defer func() {
-				if p := recover(); p != nil {
-					if p == interface{}(panicValue) {
-						ret = "panic"
-					} else {
-						ret = fmt.Sprintf("other:panic %v", p)
-					}
-				}
-			}()
-			e := walletdb.View(rn.db, func(tx walletdb.ReadTx) error {
-				res = execOps(c, tx.(walletdb.ReadWriteTx), ops)
-				switch kind {
-				case "view-err":
-					return errClosure
-				case "view-panic":
-					panic(panicValue)
-				}
-				return nil
-			})
-			ret = classify(e)
-		}()
-		rn.merge(c)
+			}
+			return endOf(kind, c)
+		})
+		if last != nil {
+			rn.merge(last)
+		}
+		return res, ret, end, runs, nil
+	}
+	switch kind {
 	case "manual-commit", "manual-rollback":
 		c := newCtx(true, rn.r)
 		tx, e := rn.db.BeginReadWriteTx()
 		if e != nil {
-			return nil, "", nil, e
+			return nil, "", nil, 0, e
 		}
 		res = execOps(c, tx, ops)
 		end = dumpTx(tx)
@@ -731,38 +805,49 @@ func (rn *runner) runTx(kind string, ops []op) (res []result, ret string, end *t
 		c := newCtx(false, rn.r)
 		tx, e := rn.db.BeginReadTx()
 		if e != nil {
-			return nil, "", nil, e
+			return nil, "", nil, 0, e
 		}
 		res = execOps(c, tx.(walletdb.ReadWriteTx), ops)
 		e = tx.Rollback()
 		ret = classify(e)
 		rn.merge(c)
 	default:
-		return nil, "", nil, fmt.Errorf("unknown kind %q", kind)
+		return nil, "", nil, 0, fmt.Errorf("unknown kind %q", kind)
 	}
-	return res, ret, end, nil
+	return res, ret, end, 1, nil
 }
 
-func commits(kind string) bool  { return kind == "update-ok" || kind == "manual-commit" }
+func commits(kind string) bool {
+	return kind == "update-ok" || kind == "manual-commit" || kind == "batch-ok"
+}
 func readonly(kind string) bool { return len(kind) >= 4 && kind[:4] == "view" || kind == "manual-read" }
 func rollsBack(kind string) bool {
-	return kind == "update-err" || kind == "update-panic" || kind == "manual-rollback"
+	return kind == "update-err" || kind == "update-panic" || kind == "manual-rollback" ||
+		kind == "batch-err" || kind == "batch-panic"
 }
 
-// judge applies the transaction-level clauses of the property to the dumps.
-func (rn *runner) judge(kind string, pre, end, post *tree) {
+// judge applies the transaction-level clauses of the property to the dumps:
+// pre = the database before the call, end = the tree the closure saw after its
+// last operation, post = the database after the call; ret = how the call ended
+// for the caller.
+func (rn *runner) judge(kind, ret string, pre, end, post *tree) {
 	switch {
 	case readonly(kind):
 		if !treeEqual(pre, post) {
 			rn.kinds["readonly_tx_modified"] = true
 		}
-	case kind == "update-panic":
+	case kind == "update-panic" || kind == "batch-panic":
 		if !treeEqual(pre, post) {
 			rn.kinds["panicked_update_changed_db"] = true
 		}
 	case rollsBack(kind):
 		if !treeEqual(pre, post) {
 			rn.kinds["failed_update_changed_db"] = true
+		}
+		// "one that returns nil makes all of its changes visible": the caller
+		// was told nil although the closure failed and its changes are gone
+		if ret == "nil" && end != nil && !treeEqual(normalized(end), post) {
+			rn.kinds["returned_nil_without_commit"] = true
 		}
 	case commits(kind):
 		want := normalized(end)
@@ -786,22 +871,46 @@ func (rn *runner) usable() bool {
 	select {
 	case e := <-done:
 		return e == nil
-	case <-time.After(1500 * time.Millisecond):
+	case <-time.After(3 * time.Second):
 		rn.stuck = true
 		return false
 	}
 }
 
-func (rn *runner) runStep(st step) (stepObs, error) {
+// openReadTxs = bbolt's count of open read transactions behind the handle
+// (hook walletdb/bdb/verif_hooks_c11.go); -1 if it cannot be told.
+func (rn *runner) openReadTxs() int { return bdb.VerifOpenReadTxs(rn.db) }
+
+// after records what is left open after a step's own calls.  A read
+// transaction that a managed call left behind makes the database unusable
+// (Close never returns, the file cannot grow): the case loop demonstrates it
+// right away with a Close under a short deadline.
+func (rn *runner) after(ob *stepObs) {
+	n := rn.openReadTxs()
+	if n < 0 {
+		n = 0
+	}
+	ob.Open = n
+	if n > 0 {
+		rn.kinds["read_tx_left_open"] = true
+		rn.leaked = true
+	}
+}
+
+func (rn *runner) runStep(st *step) (stepObs, error) {
 	var ob stepObs
 	pre := rn.prev
 	switch st.T {
 	case "tx":
-		res, ret, end, err := rn.runTx(st.Kind, st.Ops)
+		res, ret, end, runs, err := rn.runTx(st.Kind, st.Ops)
 		if err != nil {
 			return ob, err
 		}
 		ob.Res, ob.Ret = res, ret
+		if managedOf(st.Kind) == "batch" {
+			ob.Runs = runs
+		}
+		rn.after(&ob)
 		if rollsBack(st.Kind) && !rn.usable() {
 			rn.kinds["db_unusable_after_failure"] = true
 			ob.Post = &tree{Ents: []tentr{}}
@@ -812,11 +921,27 @@ func (rn *runner) runStep(st step) (stepObs, error) {
 			return ob, err
 		}
 		ob.Post = post
-		rn.judge(st.Kind, pre, end, post)
+		rn.judge(st.Kind, ret, pre, end, post)
 	case "reopen":
-		if err := rn.db.Close(); err != nil {
-			return ob, err
+		// Close waits for every open transaction
+		dl := stepDeadline
+		if rn.leaked {
+			dl = leakDeadline
 		}
+		done := make(chan error, 1)
+		go func() { done <- rn.db.Close() }()
+		select {
+		case err := <-done:
+			if err != nil {
+				return ob, err
+			}
+		case <-time.After(dl):
+			rn.blocked = true
+			rn.kinds["db_unusable_after_failure"] = true
+			ob.Ret = "blocked"
+			return ob, nil // Post stays nil: Close did not return
+		}
+		rn.leaked = false
 		if err := rn.open(false); err != nil {
 			return ob, err
 		}
@@ -842,15 +967,16 @@ func (rn *runner) runStep(st step) (stepObs, error) {
 		// on another goroutine; if it waits, release the reader (the reads
 		// after the inner transaction are then dropped from the step).
 		type txOut struct {
-			res []result
-			ret string
-			end *tree
-			err error
+			res  []result
+			ret  string
+			end  *tree
+			runs int
+			err  error
 		}
 		done := make(chan txOut, 1)
 		go func() {
-			res, ret, end, err := rn.runTx(st.Kind, st.Ops)
-			done <- txOut{res, ret, end, err}
+			res, ret, end, runs, err := rn.runTx(st.Kind, st.Ops)
+			done <- txOut{res, ret, end, runs, err}
 		}()
 		var to txOut
 		released := false
@@ -869,6 +995,9 @@ func (rn *runner) runStep(st step) (stepObs, error) {
 			return ob, err
 		}
 		ob.Res, ob.Ret = res, ret
+		if managedOf(st.Kind) == "batch" {
+			ob.Runs = to.runs
+		}
 		snap1 := snap0
 		if released {
 			rn.released = true
@@ -884,6 +1013,7 @@ func (rn *runner) runStep(st step) (stepObs, error) {
 		if !treeEqual(snap0, snap1) || !treeEqual(pre, snap1) {
 			rn.kinds["partial_commit_visible"] = true
 		}
+		rn.after(&ob)
 		if rollsBack(st.Kind) && !rn.usable() {
 			rn.kinds["db_unusable_after_failure"] = true
 			ob.Post = &tree{Ents: []tentr{}}
@@ -894,12 +1024,184 @@ func (rn *runner) runStep(st step) (stepObs, error) {
 			return ob, err
 		}
 		ob.Post = post
-		rn.judge(st.Kind, pre, end, post)
+		rn.judge(st.Kind, ret, pre, end, post)
+	case "conc":
+		if err := rn.runConc(st, &ob); err != nil {
+			return ob, err
+		}
 	default:
 		return ob, fmt.Errorf("unknown step %q", st.T)
 	}
-	rn.prev = ob.Post
+	if ob.Post != nil {
+		rn.prev = ob.Post
+	}
 	return ob, nil
+}
+
+// ---------------------------------------------------------------- concurrent callers
+
+var ordName = []byte("ord")
+
+// concHeader: the two operations every concurrent closure starts with.
+func concHeader() []op {
+	k := mkhx(ordName)
+	return []op{{P: []hx{}, O: "mkif", K: &k}, {P: []hx{k}, O: "nextseq"}}
+}
+
+func hasConcHeader(ops []op) bool {
+	return len(ops) >= 2 && len(ops[0].P) == 0 && ops[0].O == "mkif" && ops[0].K != nil && bytes.Equal(ops[0].K.B, ordName) &&
+		len(ops[1].P) == 1 && bytes.Equal(ops[1].P[0].B, ordName) && ops[1].O == "nextseq"
+}
+
+// normalizeConc makes a concurrent step well formed (also for hand-written
+// replay inputs): header present, no nil values (closures of one bbolt batch
+// share a transaction, where a nil value reads back as nil until the commit;
+// the property does not speak about that), at least one call.
+func normalizeConc(st *step) {
+	if st.Mode != "batch" {
+		st.Mode = "update"
+	}
+	for i := range st.Calls {
+		c := &st.Calls[i]
+		if c.End != "err" && c.End != "panic" {
+			c.End = "ok"
+		}
+		if !hasConcHeader(c.Ops) {
+			c.Ops = append(concHeader(), c.Ops...)
+		}
+		for j := range c.Ops {
+			if c.Ops[j].O == "put" && (c.Ops[j].V == nil || c.Ops[j].V.Nil) {
+				c.Ops[j].V = &hx{B: []byte{}}
+			}
+		}
+	}
+}
+
+func ordSeq(t *tree) uint64 {
+	if b := t.at([]hx{mkhx(ordName)}); b != nil {
+		return b.Seq
+	}
+	return 0
+}
+
+// runConc lets every call of the step run on its own goroutine, all released
+// together, and judges serialisability on what the closures saw: sorted by the
+// sequence number each one drew, every closure started from the tree the
+// previous committed one ended with (the first from the database before the
+// step), failed ones included; the database afterwards is the tree the last
+// committed one ended with.
+func (rn *runner) runConc(st *step, ob *stepObs) error {
+	normalizeConc(st)
+	pre := rn.prev
+	n := len(st.Calls)
+	obs := make([]callObs, n)
+	var mu sync.Mutex
+	bad := map[string]bool{}
+	var wg sync.WaitGroup
+	start := make(chan struct{})
+	call := callerOf(rn.db, st.Mode)
+	for i := 0; i < n; i++ {
+		wg.Add(1)
+		go func(i int) {
+			defer wg.Done()
+			c := st.Calls[i]
+			o := &obs[i]
+			<-start
+			o.Ret = managedCall(call, func(tx walletdb.ReadWriteTx) error {
+				ctx := newCtx(true, nil)
+				o.Runs++
+				o.pre = dumpTx(tx)
+				o.Res = execOps(ctx, tx, c.Ops)
+				o.end = dumpTx(tx)
+				o.Seq = 0
+				if len(o.Res) >= 2 && o.Res[1].T == "numerr" {
+					o.Seq = o.Res[1].N
+				}
+				mu.Lock()
+				for k := range ctx.bad {
+					bad[k] = true
+				}
+				mu.Unlock()
+				return endOf(c.End, ctx)
+			})
+		}(i)
+	}
+	close(start)
+	wg.Wait()
+	for k := range bad {
+		rn.kinds[k] = true
+	}
+	ob.Calls = obs
+	rn.after(ob)
+	if !rn.usable() {
+		rn.kinds["db_unusable_after_failure"] = true
+		ob.Post = &tree{Ents: []tentr{}}
+		return nil
+	}
+	post, err := dumpDB(rn.db)
+	if err != nil {
+		return err
+	}
+	ob.Post = post
+
+	// the serial order: by sequence number drawn; a failed closure drew the
+	// number the next committed one drew again
+	order := make([]int, n)
+	for i := range order {
+		order[i] = i
+	}
+	base := ordSeq(pre) // the counter may have been set anywhere by an earlier step: offsets wrap like it does
+	sort.SliceStable(order, func(a, b int) bool {
+		x, y := order[a], order[b]
+		if obs[x].Seq != obs[y].Seq {
+			return obs[x].Seq-base < obs[y].Seq-base
+		}
+		return st.Calls[x].End != "ok" && st.Calls[y].End == "ok"
+	})
+	ob.Order = order
+
+	failedKind := func(i int) string {
+		if st.Calls[i].End == "panic" {
+			return "panicked_update_changed_db"
+		}
+		return "failed_update_changed_db"
+	}
+	// blame explains a tree x that should have been cur: is it what a failed
+	// closure left?
+	blame := func(x *tree) string {
+		for i, c := range st.Calls {
+			if c.End != "ok" && obs[i].end != nil && obs[i].Runs > 0 &&
+				!treeEqual(normalized(obs[i].pre), normalized(obs[i].end)) && treeEqual(x, normalized(obs[i].end)) {
+				return failedKind(i)
+			}
+		}
+		return "not_serializable"
+	}
+	cur := pre
+	committed := uint64(0)
+	for _, i := range order {
+		o := obs[i]
+		if o.Runs == 0 || o.pre == nil {
+			// the closure never ran: a call that returned nil without it lost nothing it promised
+			continue
+		}
+		if p := normalized(o.pre); !treeEqual(p, cur) {
+			rn.kinds[blame(p)] = true
+		}
+		if st.Calls[i].End == "ok" {
+			committed++
+			if o.Seq != base+committed {
+				rn.kinds["not_serializable"] = true
+			}
+			cur = normalized(o.end)
+		} else if o.Ret == "nil" && !treeEqual(normalized(o.pre), normalized(o.end)) {
+			rn.kinds["returned_nil_without_commit"] = true
+		}
+	}
+	if !treeEqual(post, cur) {
+		rn.kinds[blame(post)] = true
+	}
+	return nil
 }
 
 // ---------------------------------------------------------------- generator
@@ -1288,11 +1590,53 @@ func (g *genState) bulk(shadow *tree) []op {
 	return ops
 }
 
+// conc generates a step in which 2..6 goroutines call walletdb.Update or
+// walletdb.Batch at once.  The closures work on one shared bucket with a
+// handful of keys, so that they overlap; which of them fail or panic is part
+// of the input.  Nothing in a body depends on the order in which they will run.
+func (g *genState) conc() step {
+	r := g.r
+	st := step{T: "conc", Mode: "update"}
+	if r.Chance(1, 2) {
+		st.Mode = "batch"
+	}
+	cc := mkhx([]byte("cc"))
+	keys := [][]byte{{0x00}, []byte("a"), []byte("ab"), {0xff}, []byte("b")}
+	n := r.Range(2, 6)
+	for i := 0; i < n; i++ {
+		c := ccall{End: []string{"ok", "err", "panic"}[r.Pick(6, 2, 2)], Ops: concHeader()}
+		c.Ops = append(c.Ops, op{P: []hx{}, O: "mkif", K: &cc})
+		for j, m := 0, r.Range(1, 5); j < m; j++ {
+			k := mkhx(keys[r.Intn(len(keys))])
+			switch r.Pick(8, 4, 3, 2, 2, 1, 1) {
+			case 0:
+				v := mkhx(append([]byte{byte('A' + i)}, r.Bytes(r.Range(0, 4))...))
+				c.Ops = append(c.Ops, op{P: []hx{cc}, O: "put", K: &k, V: &v})
+			case 1:
+				c.Ops = append(c.Ops, op{P: []hx{cc}, O: "get", K: &k})
+			case 2:
+				c.Ops = append(c.Ops, op{P: []hx{cc}, O: "del", K: &k})
+			case 3:
+				c.Ops = append(c.Ops, op{P: []hx{cc}, O: "foreach"})
+			case 4:
+				c.Ops = append(c.Ops, op{P: []hx{cc}, O: "nextseq"})
+			case 5:
+				sub := mkhx([]byte("sub"))
+				c.Ops = append(c.Ops, op{P: []hx{cc}, O: "mkif", K: &sub})
+			case 6:
+				c.Ops = append(c.Ops, op{P: []hx{}, O: "dump"})
+			}
+		}
+		st.Calls = append(st.Calls, c)
+	}
+	return st
+}
+
 func (g *genState) step(shadow *tree, idx int) step {
 	r := g.r
 	kinds := []string{"update-ok", "update-err", "update-panic", "view-ok", "view-err", "view-panic",
-		"manual-commit", "manual-rollback", "manual-read"}
-	pickKind := func() string { return kinds[r.Pick(30, 8, 7, 8, 2, 1, 6, 4, 3)] }
+		"manual-commit", "manual-rollback", "manual-read", "batch-ok", "batch-err", "batch-panic"}
+	pickKind := func() string { return kinds[r.Pick(30, 8, 7, 8, 2, 2, 6, 4, 3, 6, 4, 3)] }
 	if idx == 0 {
 		return step{T: "tx", Kind: "update-ok", Ops: g.body(shadow, true, r.Range(4, 14))}
 	}
@@ -1313,7 +1657,7 @@ func (g *genState) step(shadow *tree, idx int) step {
 		g.plan = g.plan[1:]
 		switch what {
 		case "fail":
-			k := []string{"view-panic", "view-err", "update-panic", "update-err", "manual-rollback"}[r.Pick(4, 2, 2, 2, 1)]
+			k := []string{"view-panic", "view-err", "update-panic", "update-err", "manual-rollback", "batch-panic", "batch-err"}[r.Pick(4, 2, 2, 2, 1, 2, 2)]
 			return step{T: "tx", Kind: k, Ops: g.body(shadow, !readonly(k), r.Range(1, 5))}
 		case "grow":
 			top := mkhx([]byte("grow"))
@@ -1334,9 +1678,11 @@ func (g *genState) step(shadow *tree, idx int) step {
 			return step{T: "tx", Kind: "view-ok", Ops: g.body(shadow, false, r.Range(1, 4))}
 		}
 	}
-	switch c := r.Pick(40, 5, 3, 2); {
+	switch c := r.Pick(40, 5, 3, 2, 6); {
 	case c == 1:
 		return step{T: "reopen"}
+	case c == 4:
+		return g.conc()
 	case c == 2 && g.commitsRW <= 2 && sizeEst(shadow) < 600:
 		// a reader that overlaps a small inner transaction (kept to the first
 		// commits of a case: bbolt cannot grow its mmap under an open reader)
@@ -1367,6 +1713,11 @@ func (g *genState) step(shadow *tree, idx int) step {
 // is emitted with db_unusable_after_failure and the database is abandoned.
 var stepDeadline = 6 * time.Second
 
+// leakDeadline bounds the Close that follows a step after which bbolt still
+// counts an open read transaction: a Close of these small files takes
+// milliseconds; with a read transaction open it never returns.
+var leakDeadline = 1500 * time.Millisecond
+
 // failName names a step after which "the database must still be usable".
 func failName(kind string) string {
 	switch kind {
@@ -1380,6 +1731,10 @@ func failName(kind string) string {
 		return "failing_update"
 	case "manual-rollback":
 		return "rolled_back_tx"
+	case "batch-panic":
+		return "panicking_batch"
+	case "batch-err":
+		return "failing_batch"
 	}
 	return ""
 }
@@ -1390,6 +1745,10 @@ func stepName(st step) string {
 	}
 	n := "update"
 	switch {
+	case st.T == "conc":
+		return "concurrent_" + st.Mode
+	case managedOf(st.Kind) == "batch":
+		n = "batch"
 	case readonly(st.Kind):
 		n = "view"
 	case st.Kind == "manual-commit" || st.Kind == "manual-rollback":
@@ -1402,8 +1761,7 @@ func stepName(st step) string {
 }
 
 func runCase(dir string, seedR *gen.R, in *c11Input, g *genState, nsteps int) (c11Case, error) {
-	caseSeq++
-	rn := &runner{dir: dir, file: filepath.Join(dir, fmt.Sprintf("c11-%d.db", caseSeq)), r: seedR, kinds: map[string]bool{}}
+	rn := &runner{dir: dir, file: filepath.Join(dir, fmt.Sprintf("c11-%d.db", atomic.AddInt64(&caseSeq, 1))), r: seedR, kinds: map[string]bool{}}
 	cs := c11Case{Oracle: []string{}, Tags: []string{}, Site: "walletdb/bdb"}
 	if err := rn.open(true); err != nil {
 		return cs, err
@@ -1431,17 +1789,28 @@ func runCase(dir string, seedR *gen.R, in *c11Input, g *genState, nsteps int) (c
 		ob  stepObs
 		err error
 	}
-	for i := 0; i < nsteps && !poisoned; i++ {
+	probeLeak := false // the next step is the Close that shows what an open read transaction does
+	for i := 0; (i < nsteps || probeLeak) && !poisoned; i++ {
 		var st step
-		if in != nil {
+		switch {
+		case probeLeak && (in == nil || i >= len(steps) || steps[i].T != "reopen"):
+			// inserted step (a replay of this case finds it in the input)
+			st = step{T: "reopen"}
+			if in != nil {
+				steps = append(steps[:i:i], append([]step{st}, steps[i:]...)...)
+				nsteps = len(steps)
+			}
+		case in != nil:
 			st = steps[i]
-		} else {
+		default:
 			st = g.step(rn.prev, i)
 		}
+		wasProbe := probeLeak
+		probeLeak = false
 		rn.released = false
 		ch := make(chan stepOut, 1)
 		go func() {
-			ob, err := rn.runStep(st)
+			ob, err := rn.runStep(&st)
 			ch <- stepOut{ob, err}
 		}()
 		var ob stepObs
@@ -1451,7 +1820,7 @@ func runCase(dir string, seedR *gen.R, in *c11Input, g *genState, nsteps int) (c
 				return cs, fmt.Errorf("step %d (%s %s): %v", i, st.T, st.Kind, o.err)
 			}
 			ob = o.ob
-		case <-time.After(stepDeadline):
+		case <-time.After(stepDeadline + leakDeadline):
 			// the step never returned: do not touch the runner any more
 			poisoned = true
 			kindsSoFar["db_unusable_after_failure"] = true
@@ -1470,11 +1839,42 @@ func runCase(dir string, seedR *gen.R, in *c11Input, g *genState, nsteps int) (c
 			if commits(st.Kind) && g != nil {
 				g.commitsRW++
 			}
+			if ob.Runs > 1 {
+				tags["batch_closure_rerun"] = true
+			}
+		}
+		if st.T == "conc" {
+			tags["conc_"+st.Mode] = true
+			tags[fmt.Sprintf("conc_callers_%d", len(st.Calls))] = true
+			failed := 0
+			for j, c := range st.Calls {
+				if c.End != "ok" {
+					failed++
+				}
+				if j < len(ob.Calls) && ob.Calls[j].Runs > 1 {
+					tags["batch_closure_rerun"] = true
+				}
+			}
+			if failed > 0 && failed < len(st.Calls) {
+				tags["conc_mixed_outcomes"] = true
+			}
+			for j := range ob.Order {
+				if ob.Order[j] != j {
+					tags["conc_order_not_call_order"] = true
+				}
+			}
+			if g != nil {
+				g.commitsRW++
+			}
 		}
 		if st.T != "tx" {
 			tags[st.T] = true
 		}
-		for _, rs := range [][]result{ob.Res, ob.Before, ob.After} {
+		all := [][]result{ob.Res, ob.Before, ob.After}
+		for _, c := range ob.Calls {
+			all = append(all, c.Res)
+		}
+		for _, rs := range all {
 			for _, x := range rs {
 				if x.E != "" && x.E != "nil" {
 					tags["err:"+x.E] = true
@@ -1499,15 +1899,33 @@ func runCase(dir string, seedR *gen.R, in *c11Input, g *genState, nsteps int) (c
 		if poisoned {
 			break
 		}
-		if rn.stuck { // the begin-and-commit probe after a failing step timed out
-			poisoned = true
-			cs.Site = "update_after_" + failName(st.Kind)
-		}
 		for k := range rn.kinds {
 			kindsSoFar[k] = true
 		}
+		if rn.blocked { // Close did not return: the database is abandoned
+			poisoned = true
+			cs.Site = "close" + suffix()
+			tags["close_blocked"] = true
+			if wasProbe {
+				tags["close_blocked_by_open_read_tx"] = true
+			}
+			break
+		}
+		if rn.stuck { // the begin-and-commit probe after a failing step timed out
+			poisoned = true
+			cs.Site = "update_after_" + failName(st.Kind)
+			break
+		}
 		if f := failName(st.Kind); f != "" && st.T != "reopen" {
 			lastFail = f
+		}
+		if rn.leaked {
+			// a managed call left a read transaction open
+			if f := failName(st.Kind); f == "" {
+				lastFail = stepName(st)
+			}
+			cs.Site = "open_read_tx" + suffix()
+			probeLeak = true
 		}
 	}
 	// Close under the same deadline: it waits for every open transaction.
@@ -1518,6 +1936,19 @@ func runCase(dir string, seedR *gen.R, in *c11Input, g *genState, nsteps int) (c
 		case err := <-done:
 			if err != nil {
 				return cs, fmt.Errorf("close: %v", err)
+			}
+			// what the managed calls say on a closed database (evidence only:
+			// the property does not speak about it)
+			for _, m := range []string{"update", "view", "batch"} {
+				e := callerOf(rn.db, m)(func(tx walletdb.ReadWriteTx) error { return nil })
+				cl := "nil"
+				switch {
+				case e == walletdb.ErrDbNotOpen:
+					cl = "ErrDbNotOpen"
+				case e != nil:
+					cl = "unconverted:" + e.Error()
+				}
+				tags["closed_db:"+m+":"+cl] = true
 			}
 			os.Remove(rn.file)
 		case <-time.After(stepDeadline):
@@ -1544,7 +1975,7 @@ func runCase(dir string, seedR *gen.R, in *c11Input, g *genState, nsteps int) (c
 	return cs, nil
 }
 
-var caseSeq int
+var caseSeq int64
 
 // probeEmptyLeaf reproduces the reported bbolt behaviour: Prev stops at a leaf
 // page emptied earlier in the same transaction.
@@ -1571,7 +2002,11 @@ func probeEmptyLeaf() *c11Input {
 
 func main() {
 	probe := false
+	workers := 4
+	flowProbe := false
 	core.Main("c11", func(fs *flag.FlagSet) {
+		fs.IntVar(&workers, "workers", workers, "cases run at a time")
+		fs.BoolVar(&flowProbe, "flow-probe", false, "determine the control-flow skeleton of Update / View / Batch behaviourally and print it (lib/extract_c11.py)")
 		fs.BoolVar(&probe, "probe-emptyleaf", false, "also run the backward walk over a leaf page emptied in the same transaction")
 		fs.DurationVar(&stepDeadline, "step-deadline", stepDeadline, "a database step that does not return within this time counts as blocked")
 	}, func(c *core.Common, out *core.Emitter) error {
@@ -1580,6 +2015,12 @@ func main() {
 			return err
 		}
 		defer os.RemoveAll(dir)
+		if flowProbe {
+			return runFlowProbe(dir)
+		}
+		if workers < 1 {
+			workers = 1
+		}
 		// last resort only: every database step already runs under stepDeadline
 		watchdog := time.AfterFunc(8*time.Minute, func() {
 			fmt.Fprintln(os.Stderr, "c11: watchdog: harness blocked")
@@ -1638,21 +2079,51 @@ func main() {
 			res.Site = "bbolt/cursor.prev"
 			out.Emit(res)
 		}
-		r := gen.New(c.Seed, 11)
+		// Cases are independent (own file, own random streams derived from the
+		// seed and the case number) and mostly wait (bbolt's batch timer,
+		// fsync): a few of them run at a time; they are emitted in order.
+		type caseOut struct {
+			res c11Case
+			err error
+		}
+		outs := make([]caseOut, c.N)
+		var next, poisonedRun int64 = -1, 0
+		var wg sync.WaitGroup
+		for w := 0; w < workers; w++ {
+			wg.Add(1)
+			go func() {
+				defer wg.Done()
+				for {
+					i := int(atomic.AddInt64(&next, 1))
+					if i >= c.N || atomic.LoadInt64(&poisonedRun) >= 2 {
+						return
+					}
+					r := gen.New(c.Seed, 11000+int64(i))
+					g := &genState{r: r, tier: c.Tier, tags: map[string]bool{}}
+					// the first cases of every run carry the scripted tail for sure
+					g.forcePlan = i < 6
+					n := r.Range(3, 12)
+					if g.forcePlan && n < 5 {
+						n = 5
+					}
+					res, err := runCase(dir, gen.New(c.Seed, 111000+int64(i)), nil, g, n)
+					outs[i] = caseOut{res, err}
+					if err == nil && res.poisoned {
+						atomic.AddInt64(&poisonedRun, 1)
+					}
+				}
+			}()
+		}
+		wg.Wait()
 		for i := 0; i < c.N; i++ {
-			g := &genState{r: r, tier: c.Tier, tags: map[string]bool{}}
-			// the first cases of every run carry the scripted tail for sure
-			g.forcePlan = i < 6
-			n := r.Range(3, 12)
-			if g.forcePlan && n < 5 {
-				n = 5
+			if outs[i].err != nil {
+				return fmt.Errorf("case %d: %v", i, outs[i].err)
 			}
-			res, err := runCase(dir, or, nil, g, n)
-			if err != nil {
-				return fmt.Errorf("case %d: %v", i, err)
+			if outs[i].res.Obs.Steps == nil {
+				continue // not run: two cases had blocked before
 			}
-			out.Emit(res)
-			if res.poisoned {
+			out.Emit(outs[i].res)
+			if outs[i].res.poisoned {
 				if poisonedCases++; poisonedCases >= 2 {
 					fmt.Fprintln(os.Stderr, "c11: two cases blocked; stopping after", i+1, "cases")
 					return nil
